@@ -2,8 +2,9 @@ import Prom.Model.HistMachine
 import Prom.Lemmas.Guard
 import Prom.HP.Order
 /-
-Refinement: every item the replay machine `Prom.HM.item` accepts is a stutter or exactly one
-`Hp.Step` of the abstraction `HM.abs`. Hence every state the machine reaches while replaying a
+Refinement: every item the replay machine `Prom.HM.item` accepts is a stutter, exactly one
+`Hp.Step` of the abstraction `HM.abs`, or exactly two (only when a collector skipped the no-op
+`fetch_add(0)` of an `addHot` step: the first of the two is that `addHot` of 0). Hence every state the machine reaches while replaying a
 trace of the real implementation is `Hp.Reach`able, and the C02 / C03 theorems hold of it.
 -/
 namespace Prom.HM
@@ -92,12 +93,239 @@ theorem casLoop_failure {e : Ev} {c : Hp.St} {pc : Pc} {b : Bool} {cell : Nat} {
       cases h
       exact ⟨rfl, hg.2⟩
 
-theorem evStep_refines {k : Nat} {c : Hp.St} {cuts : Cuts} {e : Ev} {pc : Pc} {c' : Hp.St} {pc' : Pc}
+/-! ### the updates of one observation in any order -/
+
+/-- what `splitFirst` returns is a split of the list at an entry satisfying `f` before which no
+    entry satisfies `f` -/
+theorem splitFirst_spec {f : Nat × Int → Bool} : ∀ {l : List (Nat × Int)} {l1 q l2},
+    splitFirst f l = some (l1, q, l2) → l = l1 ++ q :: l2 ∧ f q = true ∧ ∀ x ∈ l1, f x = false
+  | [], _, _, _, h => by simp [splitFirst] at h
+  | p :: l, l1, q, l2, h => by
+    simp only [splitFirst] at h
+    split at h
+    · next hp => cases h; exact ⟨rfl, hp, by simp⟩
+    · next hp =>
+      split at h
+      · next m1 q' m2 hm =>
+        cases h
+        obtain ⟨e1, e2, e3⟩ := splitFirst_spec hm
+        refine ⟨by rw [e1]; rfl, e2, ?_⟩
+        intro x hx
+        simp only [List.mem_cons] at hx
+        rcases hx with rfl | hx
+        · simpa using hp
+        · exact e3 x hx
+      · cases h
+
+/-- `splitFirst` fails only if no entry satisfies `f` -/
+theorem splitFirst_none {f : Nat × Int → Bool} : ∀ {l : List (Nat × Int)},
+    splitFirst f l = none → ∀ x ∈ l, f x = false
+  | [], _ => by simp
+  | p :: l, h => by
+    simp only [splitFirst] at h
+    split at h
+    · cases h
+    · next hp =>
+      split at h
+      · cases h
+      · next hm =>
+        intro x hx
+        simp only [List.mem_cons] at hx
+        rcases hx with rfl | hx
+        · simpa using hp
+        · exact splitFirst_none hm x hx
+
+/-- the first entry satisfying `f` is found wherever it stands -/
+theorem splitFirst_of_first {f : Nat × Int → Bool} : ∀ (l1 : List (Nat × Int)) (q : Nat × Int) (l2 : List (Nat × Int)),
+    (∀ x ∈ l1, f x = false) → f q = true → splitFirst f (l1 ++ q :: l2) = some (l1, q, l2)
+  | [], q, l2, _, hq => by simp [splitFirst, hq]
+  | p :: l1, q, l2, h1, hq => by
+    have hp : f p = false := h1 p (by simp)
+    have ih := splitFirst_of_first l1 q l2 (fun x hx => h1 x (by simp [hx])) hq
+    simp [splitFirst, hp, ih]
+
+/-- `pick` splits the list it is given: nothing is lost, nothing is reordered but the picked entry -/
+theorem pick_spec (k : Nat) (b : Bool) (loc : Loc) (p : Nat × Int) (l : List (Nat × Int)) :
+    (pick k b loc p l).1 ++ (pick k b loc p l).2.1 :: (pick k b loc p l).2.2 = p :: l := by
+  unfold pick
+  cases h : splitFirst (hits k b loc) (p :: l) with
+  | none => rfl
+  | some t =>
+    obtain ⟨l1, q, l2⟩ := t
+    exact (splitFirst_spec h).1.symm
+
+/-- `pick` selects the first entry the location addresses, wherever in the list it stands -/
+theorem pick_of_hit {k : Nat} {b : Bool} {loc : Loc} {p : Nat × Int} {l l1 l2 : List (Nat × Int)} {q : Nat × Int}
+    (hl : p :: l = l1 ++ q :: l2) (h1 : ∀ x ∈ l1, hits k b loc x = false) (hq : hits k b loc q = true) :
+    pick k b loc p l = (l1, q, l2) := by
+  unfold pick
+  rw [hl, splitFirst_of_first l1 q l2 h1 hq]; rfl
+
+/-- an event whose location addresses no entry is checked against the head -/
+theorem pick_of_no_hit {k : Nat} {b : Bool} {loc : Loc} {p : Nat × Int} {l : List (Nat × Int)}
+    (h : ∀ x ∈ p :: l, hits k b loc x = false) : pick k b loc p l = ([], p, l) := by
+  unfold pick
+  cases hs : splitFirst (hits k b loc) (p :: l) with
+  | none => rfl
+  | some t =>
+    obtain ⟨l1, q, l2⟩ := t
+    obtain ⟨e1, e2, _⟩ := splitFirst_spec hs
+    have := h q (by rw [e1]; simp)
+    rw [this] at e2; cases e2
+
+/-! ### the silent `addHot` of 0 -/
+
+/-- if `skipTask` leaves the task alone, `skipPc` leaves the call state alone -/
+theorem skipPc_of_task_eq {k : Nat} {e : Ev} {pc : Pc} (h : skipTask k (parseLoc e.loc) pc.task = pc.task) :
+    skipPc k e pc = pc := by
+  unfold skipPc; rw [h]
+
+/-- `skipTask` leaves a task alone, or drops the head `addHot cell` of a collector's program when
+    `cell` is a bucket, the collector took 0 out of the cold bucket, and the event is not on the hot bucket -/
+theorem skipTask_cases (k : Nat) (loc : Loc) (t : Option Task) :
+    skipTask k loc t = t ∨
+    ∃ cold ov cell todo taken S, t = some (.colMove cold ov (.addHot cell :: todo) taken S) ∧
+      skipTask k loc t = some (.colMove cold ov todo taken S) ∧ cell < k ∧ taken cell = 0 ∧ loc ≠ .bkt (!cold) cell := by
+  unfold skipTask
+  split
+  · next cold ov cell todo taken S =>
+    split
+    · next hc =>
+      simp only [Bool.and_eq_true, decide_eq_true_eq, bne_iff_ne, ne_eq] at hc
+      exact .inr ⟨cold, ov, cell, todo, taken, S, rfl, rfl, hc.1.1, hc.1.2, hc.2⟩
+    · exact .inl rfl
+  · exact .inl rfl
+
+/-- only a collector whose next step is an `addHot` is ever affected -/
+theorem skipTask_of_not_addHot {k : Nat} {loc : Loc} {t : Option Task}
+    (h : ∀ cold ov cell todo taken S, t ≠ some (.colMove cold ov (.addHot cell :: todo) taken S)) :
+    skipTask k loc t = t := by
+  rcases skipTask_cases k loc t with h' | ⟨cold, ov, cell, todo, taken, S, ht, _⟩
+  · exact h'
+  · exact absurd ht (h cold ov cell todo taken S)
+
+/-- for every task but a collector about to do an `addHot`, the event step is the plain check -/
+theorem evStep_eq_evStep1 {k : Nat} {c : Hp.St} {cuts : Cuts} {e : Ev} {pc : Pc}
+    (h : ∀ cold ov cell todo taken S, pc.task ≠ some (.colMove cold ov (.addHot cell :: todo) taken S)) :
+    evStep k c cuts e pc = evStep1 k c cuts e pc := by
+  unfold evStep; rw [skipPc_of_task_eq (skipTask_of_not_addHot h)]
+
+/-- adding 0 to a cell changes nothing -/
+theorem modSh_add_zero (sh : Bool → Shard) (b : Bool) (cell : Nat) :
+    modSh sh b (fun x => { x with cell := setCell x.cell cell (x.cell cell + 0) }) = sh := by
+  funext b'
+  simp only [modSh]
+  split
+  · have : setCell (sh b').cell cell ((sh b').cell cell + 0) = (sh b').cell := by
+      funext x
+      simp only [setCell]
+      split
+      · next hx => rw [hx]; omega
+      · rfl
+    rw [this]
+  · rfl
+
+/-- **the skipped `fetch_add(0)` is a step of the proof model that changes nothing but the collector's
+    program counter**: the abstract `addHot cell` with `taken cell = 0` -/
+theorem skip_is_step {k : Nat} (c : Hp.St) (pre post : List Task) (cold : Bool) (ov cell : Nat) (todo : List CStep)
+    (taken : Cells) (S : List Obs) (h0 : taken cell = 0) :
+    Hp.Step k (withTasks c (pre ++ [Task.colMove cold ov (.addHot cell :: todo) taken S] ++ post))
+      (withTasks c (pre ++ [Task.colMove cold ov todo taken S] ++ post)) := by
+  have := Step.addHot (k := k) (withTasks c (pre ++ [Task.colMove cold ov (.addHot cell :: todo) taken S] ++ post))
+    pre post cold ov cell todo taken S (by simp [withTasks])
+  simp only [withTasks, h0, modSh_add_zero] at this
+  simpa [withTasks] using this
+
+/-- **the skip is accepted**: a collector whose next step is `addHot cell` on a bucket out of which it
+    swapped 0 treats an event that is not on the hot bucket `cell` exactly as it would with that step
+    already done -/
+theorem addHot_zero_skipped {k : Nat} {c : Hp.St} {cuts : Cuts} {e : Ev} {pc : Pc} {cold : Bool} {ov cell : Nat}
+    {todo : List CStep} {taken : Cells} {S : List Obs}
+    (ht : pc.task = some (.colMove cold ov (.addHot cell :: todo) taken S))
+    (hc : cell < k) (h0 : taken cell = 0) (hl : parseLoc e.loc ≠ .bkt (!cold) cell) :
+    evStep k c cuts e pc = evStep1 k c cuts e { pc with task := some (.colMove cold ov todo taken S) } := by
+  unfold evStep skipPc
+  rw [ht]
+  simp [skipTask, hc, h0, hl]
+
+/-- … and in every other case (the event IS on the hot bucket, the swapped-out value is not 0, or the
+    cell is the sum) nothing is skipped: the event is checked against the `addHot` step as before -/
+theorem addHot_not_skipped {k : Nat} {c : Hp.St} {cuts : Cuts} {e : Ev} {pc : Pc} {cold : Bool} {ov cell : Nat}
+    {todo : List CStep} {taken : Cells} {S : List Obs}
+    (ht : pc.task = some (.colMove cold ov (.addHot cell :: todo) taken S))
+    (h : ¬ (cell < k ∧ taken cell = 0 ∧ parseLoc e.loc ≠ .bkt (!cold) cell)) :
+    evStep k c cuts e pc = evStep1 k c cuts e pc := by
+  unfold evStep
+  rw [skipPc_of_task_eq]
+  rcases skipTask_cases k (parseLoc e.loc) pc.task with hs | ⟨cold', ov', cell', todo', taken', S', ht', _, h1, h2, h3⟩
+  · exact hs
+  · rw [ht] at ht'; cases ht'
+    exact absurd ⟨h1, h2, h3⟩ h
+
+/-- the `obsRun` arm of the machine is `obsEntry` on the entry `pick` selects -/
+theorem evStep_obsRun {k : Nat} {c : Hp.St} {cuts : Cuts} {e : Ev} {pc : Pc} {o : Obs} {b : Bool}
+    {p : Nat × Int} {l : List (Nat × Int)} (ht : pc.task = some (.obsRun o b (p :: l))) :
+    evStep k c cuts e pc =
+      plainR cuts (obsEntry k c e pc o b (pick k b (parseLoc e.loc) p l).2.1.1 (pick k b (parseLoc e.loc) p l).2.1.2
+        ((pick k b (parseLoc e.loc) p l).1 ++ (pick k b (parseLoc e.loc) p l).2.2)) := by
+  rw [evStep_eq_evStep1 (by intros; simp [ht])]
+  unfold evStep1
+  simp only [ht]
+
+/-- **any order is accepted** — a running observation whose remaining updates are
+    `l1 ++ (cell, a) :: l2` treats an event on the location of `(cell, a)` (the bucket `cell` of its
+    shard if `cell < k`, the sum of its shard otherwise; no earlier entry of the list on the same
+    location) exactly as it treats the event when that entry is the head: it checks the event against
+    that entry (`obsEntry`), and `l1 ++ l2` is what remains. With `l1 = []` this is the old behaviour. -/
+theorem obsRun_accepts_any_entry {k : Nat} {c : Hp.St} {cuts : Cuts} {e : Ev} {pc : Pc} {o : Obs} {b : Bool}
+    {l1 l2 : List (Nat × Int)} {cell : Nat} {a : Int}
+    (ht : pc.task = some (.obsRun o b (l1 ++ (cell, a) :: l2)))
+    (h1 : ∀ x ∈ l1, hits k b (parseLoc e.loc) x = false)
+    (hq : hits k b (parseLoc e.loc) (cell, a) = true) :
+    evStep k c cuts e pc = plainR cuts (obsEntry k c e pc o b cell a (l1 ++ l2)) := by
+  cases hl : l1 ++ (cell, a) :: l2 with
+  | nil => simp at hl
+  | cons p l =>
+    rw [hl] at ht
+    rw [evStep_obsRun ht, pick_of_hit hl.symm h1 hq]
+
+/-- the same with the entry at the head: the two lists `l1 ++ (cell, a) :: l2` and
+    `(cell, a) :: (l1 ++ l2)` are treated alike -/
+theorem obsRun_entry_as_head {k : Nat} {c : Hp.St} {cuts : Cuts} {e : Ev} {pc pc₀ : Pc} {o : Obs} {b : Bool}
+    {l1 l2 : List (Nat × Int)} {cell : Nat} {a : Int}
+    (ht : pc.task = some (.obsRun o b (l1 ++ (cell, a) :: l2)))
+    (ht₀ : pc₀.task = some (.obsRun o b ((cell, a) :: (l1 ++ l2))))
+    (h1 : ∀ x ∈ l1, hits k b (parseLoc e.loc) x = false)
+    (hq : hits k b (parseLoc e.loc) (cell, a) = true) :
+    evStep k c cuts e pc = plainR cuts (obsEntry k c e pc o b cell a (l1 ++ l2)) ∧
+    evStep k c cuts e pc₀ = plainR cuts (obsEntry k c e pc₀ o b cell a (l1 ++ l2)) :=
+  ⟨obsRun_accepts_any_entry ht h1 hq,
+   obsRun_accepts_any_entry (l1 := []) (by simpa using ht₀) (by simp) hq⟩
+
+/-- an event that addresses none of the remaining entries is checked against the head entry, as before -/
+theorem obsRun_no_entry {k : Nat} {c : Hp.St} {cuts : Cuts} {e : Ev} {pc : Pc} {o : Obs} {b : Bool}
+    {p : Nat × Int} {l : List (Nat × Int)} (ht : pc.task = some (.obsRun o b (p :: l)))
+    (h : ∀ x ∈ p :: l, hits k b (parseLoc e.loc) x = false) :
+    evStep k c cuts e pc = plainR cuts (obsEntry k c e pc o b p.1 p.2 l) := by
+  rw [evStep_obsRun ht, pick_of_no_hit h]; rfl
+
+/-- a bucket update in the middle of a sum loop leaves the loop as it is: the value it has loaded
+    (`cur`) and whether its last compare-exchange failed (`failed`) persist -/
+theorem obsEntry_bucket_keeps_loop {k : Nat} {c : Hp.St} {e : Ev} {pc : Pc} {o : Obs} {b : Bool} {cell : Nat}
+    {a : Int} {rest : List (Nat × Int)} {r : Res} (hc : cell < k)
+    (h : obsEntry k c e pc o b cell a rest = .ok r) :
+    r.2.1.cur = pc.cur ∧ r.2.1.failed = pc.failed ∧ r.2.1.task = some (.obsRun o b rest) := by
+  simp only [obsEntry, hc, if_true] at h
+  rw [guard_ok] at h; obtain ⟨_, h⟩ := h; cases h
+  exact ⟨rfl, rfl, rfl⟩
+
+/-- the check of one event against the current task is a stutter or exactly one step -/
+theorem evStep1_refines {k : Nat} {c : Hp.St} {cuts : Cuts} {e : Ev} {pc : Pc} {c' : Hp.St} {pc' : Pc}
     {rv : Option String} {cuts' : Cuts}
-    (h : evStep k c cuts e pc = .ok ((c', pc', rv), cuts')) (pre post : List Task) :
+    (h : evStep1 k c cuts e pc = .ok ((c', pc', rv), cuts')) (pre post : List Task) :
     withTasks c' (pre ++ pc'.task.toList ++ post) = withTasks c (pre ++ pc.task.toList ++ post) ∨
     Hp.Step k (withTasks c (pre ++ pc.task.toList ++ post)) (withTasks c' (pre ++ pc'.task.toList ++ post)) := by
-  unfold evStep at h
+  unfold evStep1 at h
   simp only at h
   split at h
   · -- count
@@ -111,9 +339,14 @@ theorem evStep_refines {k : Nat} {c : Hp.St} {cuts : Cuts} {e : Ev} {pc : Pc} {c
     right
     have := Step.claim (k := k) (withTasks c (pre ++ pc.task.toList ++ post)) pre post o (by simp [withTasks, ht])
     simpa [withTasks, ht] using this
-  · -- obsRun, an update left
-    next o b cell a rest ht =>
-    have hstep := Step.apply (k := k) (withTasks c (pre ++ pc.task.toList ++ post)) pre post o b cell a rest (by simp [withTasks, ht])
+  · -- obsRun, an update left: the entry the event's location selects
+    next o b p l ht =>
+    have hsp := pick_spec k b (parseLoc e.loc) p l
+    generalize pick k b (parseLoc e.loc) p l = sp at h hsp
+    obtain ⟨l1, ⟨cell, a⟩, l2⟩ := sp
+    simp only at hsp h
+    have hstep := Step.apply (k := k) (withTasks c (pre ++ pc.task.toList ++ post)) pre post o b cell a l1 l2 (by simp [withTasks, ht, hsp])
+    simp only [obsEntry] at h
     split at h
     · rw [plainR_ok, guard_ok] at h
       obtain ⟨⟨_, h⟩, _⟩ := h; cases h
@@ -210,6 +443,32 @@ theorem evStep_refines {k : Nat} {c : Hp.St} {cuts : Cuts} {e : Ev} {pc : Pc} {c
   · cases h
 
 
+/-- **one accepted event** is a stutter, exactly one step of the proof model, or — when the collector
+    skipped the no-op `fetch_add(0)` of an `addHot` step (`skipTask`) — exactly two steps, the first of
+    which is that `addHot` of 0 and changes nothing but the collector's task (`ts`) -/
+theorem evStep_refines {k : Nat} {c : Hp.St} {cuts : Cuts} {e : Ev} {pc : Pc} {c' : Hp.St} {pc' : Pc}
+    {rv : Option String} {cuts' : Cuts}
+    (h : evStep k c cuts e pc = .ok ((c', pc', rv), cuts')) (pre post : List Task) :
+    withTasks c' (pre ++ pc'.task.toList ++ post) = withTasks c (pre ++ pc.task.toList ++ post) ∨
+    Hp.Step k (withTasks c (pre ++ pc.task.toList ++ post)) (withTasks c' (pre ++ pc'.task.toList ++ post)) ∨
+    ∃ ts, Hp.Step k (withTasks c (pre ++ pc.task.toList ++ post)) (withTasks c ts) ∧
+          Hp.Step k (withTasks c ts) (withTasks c' (pre ++ pc'.task.toList ++ post)) := by
+  unfold evStep at h
+  have h1 := evStep1_refines h pre post
+  rcases skipTask_cases k (parseLoc e.loc) pc.task with hs | ⟨cold, ov, cell, todo, taken, S, ht, hs, _, h0, _⟩
+  · rw [skipPc_of_task_eq hs] at h1
+    rcases h1 with h1 | h1
+    · exact .inl h1
+    · exact .inr (.inl h1)
+  · have hsk := skip_is_step (k := k) c pre post cold ov cell todo taken S h0
+    have e1 : (skipPc k e pc).task.toList = [Task.colMove cold ov todo taken S] := by simp [skipPc, hs]
+    have e2 : pc.task.toList = [Task.colMove cold ov (.addHot cell :: todo) taken S] := by simp [ht]
+    rw [e1] at h1
+    rw [e2]
+    rcases h1 with h1 | h1
+    · exact .inr (.inl (by rw [h1]; exact hsk))
+    · exact .inr (.inr ⟨_, hsk, h1⟩)
+
 theorem closeCall_pc {Pc} {th th' : Th Pc} {i v : String} (h : closeCall th i v = .ok th') : th'.pc = th.pc := by
   unfold closeCall at h
   split at h
@@ -249,8 +508,13 @@ theorem planCall_cases {s : St} {op : String} {pc : Pc} (h : planCall s op = .ok
         · cases h; right; right; rfl
         · cases h
 
+/-- **every accepted item** is a stutter, exactly one step of the proof model, or (an event at which a
+    collector skipped the no-op `fetch_add(0)` of an `addHot` step) exactly two steps, the first of which
+    is that `addHot` of 0: it changes nothing but the task list (`ts`) -/
 theorem item_refines {s s' : St} {it : Item} (h : item s it = .ok s') :
-    s'.bounds = s.bounds ∧ (abs s' = abs s ∨ Hp.Step s.bounds.length (abs s) (abs s')) := by
+    s'.bounds = s.bounds ∧ (abs s' = abs s ∨ Hp.Step s.bounds.length (abs s) (abs s') ∨
+      ∃ ts, Hp.Step s.bounds.length (abs s) (withTasks s.core ts) ∧
+            Hp.Step s.bounds.length (withTasks s.core ts) (abs s')) := by
   cases it with
   | ev e =>
     simp only [item] at h
@@ -318,10 +582,10 @@ theorem item_refines {s s' : St} {it : Item} (h : item s it = .ok s') :
                 have hT' : taskOf { th with pc := some pc } = pc.task := by simp [taskOf]
                 rw [hT']
                 rcases planCall_cases hplan with ⟨o, ho, hw, hu⟩ | hc | hn
-                · right
+                · right; left
                   have := Step.spawnObs (k := s.bounds.length) (withTasks s.core (pre ++ post)) pre post o hw hu rfl
                   simpa [withTasks, ho] using this
-                · right
+                · right; left
                   have := Step.spawnCol (k := s.bounds.length) (withTasks s.core (pre ++ post)) pre post rfl
                   simpa [withTasks, hc] using this
                 · left; simp [hn]
@@ -360,9 +624,10 @@ theorem mreach_reach {bounds prog s} (h : MReach bounds prog s) : Hp.Reach bound
   | init => rw [abs_init]; exact Reach.init
   | step hr hs ih =>
     have hb := mreach_bounds hr
-    rcases (item_refines hs).2 with he | hst
+    rcases (item_refines hs).2 with he | hst | ⟨ts, h1, h2⟩
     · rw [he]; exact ih
     · rw [hb] at hst; exact Reach.step ih hst
+    · rw [hb] at h1 h2; exact Reach.step (Reach.step ih h1) h2
 
 theorem runItems_mreach {bounds prog} : ∀ (tr : List Item) (s s' : St) (n : Nat), MReach bounds prog s →
     runItems item s tr n = .ok s' → MReach bounds prog s'
